@@ -224,3 +224,112 @@ CHECKS.append(Check("aggregate", [f"{TR}.aggregate.Aggregate.__init__", f"{TR}.a
                                   f"{TR}.tensor_dict.GradientVectors._check_key_value_pair",
                                   f"{TR}.tensor_dict._check_value_n_dim", f"{TR}.tensor_dict._check_corresponding_numel"],
                     aggregate_check, replay_keys=["C15.Aggregate", "C01."]))
+
+
+from . import theory as _theory  # noqa: E402
+CHECKS += list(_theory.CHECKS)
+
+
+# ----------------------------------------------------------------------------- Grad / Select / Stack
+
+
+def grad_check(H):
+    def body(cx):
+        it = H.interp(cx, loop_specs=A.LOOPS, overrides=A.OVERRIDES)
+        O = A.tensor_list(cx, "O", distinct=True, min_len=0)
+        I = A.tensor_list(cx, "I", distinct=True, min_len=0)
+        rg = z3.Bool("retain_graph")
+        g = it.call(H.repo.get(f"{TR}.grad.Grad"), [O, I, rg])
+        cotf = cx.fresh_func("cot", A.IntS, A.IntS, A.RealS)
+        cots = V.SymSeq(O.length, lambda j: LTen(O.get(j).shape, lambda ix, j=j: cotf(lift(j), ix[0]), fresh=False))
+        kind, out = call_catch(lambda: it.call(it.getattr(g, "_differentiate"), [cots]))
+        cx.oblige("C15.grad.no_raise", kind == "return", where=str(getattr(out, "where", "")))
+        if kind != "return":
+            return
+        sweeps = [e for e in cx.events if e[0] == "sweep"]
+        if isinstance(out, tuple):
+            cx.oblige("C15.grad.empty_inputs_give_empty_tuple", z3.And(I.length == 0, len(out) == 0, len(sweeps) == 0))
+            return
+        o = P.as_symseq(it, out)
+        cx.oblige("C15.grad.one_result_per_input", lift(o.length) == I.length)
+        k, c = cx.fresh_int("k"), cx.fresh_int("c")
+        cx.assume(z3.And(0 <= k, k < I.length, 0 <= c, c < A.numel(I.get(k).ref)))
+        cx.oblige("C15.grad.shape", o.get(k).shape.eq(I.get(k).shape))
+        if not sweeps:
+            cx.oblige("C15.grad.no_sweep_only_without_outputs", O.length == 0)
+            return
+        cx.oblige("C15.grad.ghost.single_sweep_with_callers_flag", z3.And(len(sweeps) == 1, lift(sweeps[0][1]["retain"]) == rg,
+                                                                          sweeps[0][1]["create_graph"] is False))
+        from tjv.pyvc.lten import DJ, _outs_handle, delta_sum
+        from tjv.pyvc.values import U
+        h, _ = _outs_handle(it, O)
+        offO = A.offsets(it, O)
+        x = I.get(k).ref
+        want = z3.If(U("unreachable", z3.BoolSort(), h, x), 0,
+                     delta_sum(cx, offO.total(), lambda rp: cotf(offO.blk(rp), rp - offO.off(offO.blk(rp))) * DJ(h, rp, x, c)))
+        cx.oblige("C15.grad.post", o.get(k).elem([c]) == want)
+    H.explore(body)
+
+
+def select_compute_check(H):
+    def body(cx):
+        it = H.interp(cx, loop_specs=A.LOOPS, overrides=A.OVERRIDES)
+        R = A.tensor_list(cx, "R", distinct=True)
+        # keys: an arbitrary sub-sequence of R given by a membership predicate
+        sel = V.SymSet(cx, "sel")
+        tq = z3.Const("t!q", A.TenS)
+        SR = P.lift_set(it, P.set_from_seq(it, R))
+        cx.assume(V.forall([tq], z3.Implies(sel.contains(tq), SR.contains(tq))))
+        s = it.call(H.repo.get(f"{TR}.select.Select"), [sel, R])
+        g, gf = sym_gradients(cx, it, R)
+        kind, out = call_catch(lambda: it.call(s, [g]))
+        cx.oblige("C15.select.no_raise", kind == "return", where=str(getattr(out, "where", "")))
+        if kind != "return":
+            return
+        cx.oblige("C15.select.type_preserved", out.cls.name == "Gradients")
+        x, c = cx.fresh_const("x", A.TenS), cx.fresh_int("c")
+        if isinstance(out.payload, dict) and not out.payload:
+            cx.oblige("C15.select.keys", z3.Not(sel.contains(x)))
+            return
+        om = P.to_symmap(it, out.payload)
+        cx.oblige("C15.select.keys", P.map_dom(it, om)(x) == sel.contains(x))
+        cx.oblige("C15.select.post", z3.Implies(sel.contains(x), om.get(x).elem([c]) == gf(x, c)))
+    H.explore(body)
+
+
+def stack_check(t):
+    def fn(H):
+        def body(cx):
+            it = H.interp(cx, loop_specs=A.LOOPS, overrides=A.OVERRIDES)
+            Ks = [A.tensor_list(cx, f"K{i}", distinct=True) for i in range(t)]
+            ds, gfs = [], []
+            for i in range(t):
+                d, gf = sym_gradients(cx, it, Ks[i], name=f"g{i}")
+                ds.append(d)
+                gfs.append(gf)
+            kind, out = call_catch(lambda: it.call(H.repo.get(f"{TR}.stack._stack"), [list(ds)]))
+            cx.oblige(f"C15.stack{t}.no_raise", kind == "return", where=str(getattr(out, "where", "")))
+            if kind != "return":
+                return
+            cx.oblige(f"C15.stack{t}.type", out.cls.name == "Jacobians")
+            x, c = cx.fresh_const("x", A.TenS), cx.fresh_int("c")
+            member = [P.map_dom(it, V.SymMap(Ks[i], lambda tt: None))(x) for i in range(t)]
+            if isinstance(out.payload, dict) and not out.payload:
+                cx.oblige(f"C15.stack{t}.keys", z3.Not(z3.Or(member)))
+                return
+            om = P.to_symmap(it, out.payload)
+            cx.oblige(f"C15.stack{t}.keys", P.map_dom(it, om)(x) == z3.Or(member))
+            cx.assume(z3.Or(member))
+            v = om.get(x)
+            cx.oblige(f"C15.stack{t}.shape", z3.And(len(v.shape.lead) == 1, lift(v.shape.lead[0]) == t, v.shape.tail == V.TRef(x).shape.tail))
+            for i in range(t):
+                cx.oblige(f"C15.stack{t}.row{i}_comes_from_dict{i}", v.elem([z3.IntVal(i), c]) == z3.If(member[i], gfs[i](x, c), 0))
+        H.explore(body, max_paths=3000)
+    return Check(f"stack{t}", [f"{TR}.stack._stack", f"{TR}.stack._stack_one_key", f"{TR}._utils.dicts_union"], fn, replay_keys=["C15.Stack", "C02."])
+
+
+CHECKS += [
+    Check("grad", [f"{TR}.grad.Grad.__init__", f"{TR}.grad.Grad._differentiate"], grad_check, replay_keys=["C15.Grad"]),
+    Check("select", [f"{TR}.select.Select.__init__", f"{TR}.select.Select._compute"], select_compute_check, replay_keys=["C15.Select"]),
+    stack_check(2), stack_check(3),
+]
